@@ -20,7 +20,7 @@ inductive TreeSt
   /-- a tree of height `h`, feature count `F`, the leaf chain (leaf ids in chain order), next fresh leaf id -/
   | full (h : Nat) (F : Nat) (root : Tree h) (chain : List Nat) (next : Nat)
   /-- after `delete_internal_nodes`: only the leaf chain survives -/
-  | leavesOnly (leaves : List LeafN)
+  | leavesOnly (F : Nat) (leaves : List LeafN)
 
 structure Est where
   cfg : Cfg
@@ -81,7 +81,7 @@ def insertUnit (bf : Nat) (F : Nat) (st : TreeSt) (s : Clu) : Option TreeSt :=
     let root : LeafN := { id := 0, cap := bf, subs := [], cache := [] }
     some (insertRoot P bf 0 F root [0] 1 s)
   | .full h F' root chain next => some (insertRoot P bf h F' root chain next s)
-  | .leavesOnly _ => none
+  | .leavesOnly _ _ => none
 
 /-! ### reports -/
 
@@ -91,7 +91,7 @@ def findLeaf (ls : List LeafN) (id : Nat) : Option LeafN := ls.find? (fun l => l
 def TreeSt.leaves : TreeSt → List LeafN
   | .uninit => []
   | .full h _ root chain _ => chain.filterMap (findLeaf (leavesOf h root))
-  | .leavesOnly ls => ls
+  | .leavesOnly _ ls => ls
 
 /-- `is_init` -/
 def TreeSt.isInit : TreeSt → Bool
@@ -143,7 +143,7 @@ def fit (e : Est) (rows : List Row) (labels : Option (List Nat)) : Est × Option
   | [] => (e, some .value)
   | r0 :: _ =>
     match e.st with
-    | .leavesOnly _ => (e, some .value)
+    | .leavesOnly _ _ => (e, some .value)
     | _ =>
       let F := (e.st.F?).getD r0.length
       let labelled := match labels with
@@ -166,7 +166,7 @@ def fitBuffers (e : Est) (units : List Clu) : Est × Option Err :=
   | [] => (e, some .value)
   | u0 :: _ =>
     match e.st with
-    | .leavesOnly _ => (e, some .value)
+    | .leavesOnly _ _ => (e, some .value)
     | _ =>
       let F := (e.st.F?).getD u0.ls.length
       if F != u0.ls.length then (e, some .value)
@@ -187,26 +187,29 @@ def Clu.asUnit (c : Clu) : Clu := Clu.ofBuffer c.w c.ls c.n c.ids
 def Est.reset (e : Est) : Est := { e with st := .uninit, numFitted := 0 }
 
 /-- refit the groups one after the other (stops at the first error, like the Python loop) -/
-def refitGroups (mk : Est → Policy) (e : Est) : List (W × List Clu) → Est × Option Err
+def refitGroups (pol : Cfg → Policy) (e : Est) : List (W × List Clu) → Est × Option Err
   | [] => (e, none)
   | g :: gs =>
-    let (e', err) := fitBuffers (mk e) e (g.2.map Clu.asUnit)
+    let (e', err) := fitBuffers (pol e.cfg) e (g.2.map Clu.asUnit)
     match err with
     | some x => (e', some x)
-    | none => refitGroups mk e' gs
+    | none => refitGroups pol e' gs
 
-def applyPerm {α : Type} [Inhabited α] (xs : List α) (perm : List Nat) : List α := perm.map (fun i => xs.getD i default)
+/-- apply a shuffle given as a list of source indices; anything that is not a permutation of
+`0..len-1` is ignored, so the result is a permutation of `xs` for every argument -/
+def applyPerm {α : Type} [Inhabited α] (xs : List α) (perm : List Nat) : List α :=
+  if perm.isPerm (List.range xs.length) then perm.map (fun i => xs.getD i default) else xs
 
 /-- `delete_internal_nodes()` -/
 def delInternal (e : Est) : Est × Option Err :=
   match e.st with
   | .uninit => (e, some .attribute)
-  | .leavesOnly _ => (e, some .attribute)
+  | .leavesOnly _ _ => (e, some .attribute)
   | .full 0 _ _ _ _ => (e, none)
-  | .full (_+1) _ _ _ _ => ({ e with st := .leavesOnly e.st.leaves }, none)
+  | .full (_+1) F _ _ _ => ({ e with st := .leavesOnly F e.st.leaves }, none)
 
 /-- one iteration list of `recluster_inplace` -/
-def reclusterLoop (mk : Est → Policy) (extra : Rat) (stopEarly : Bool) :
+def reclusterLoop (pol : Cfg → Policy) (extra : Rat) (stopEarly : Bool) :
     Nat → List (Option (List Nat)) → Nat → Est → Est × Option Err
   | 0, _, _, e => (e, none)
   | k+1, perms, before, e =>
@@ -220,16 +223,16 @@ def reclusterLoop (mk : Est → Policy) (extra : Rat) (stopEarly : Bool) :
       let groups := groupByW bfs'
       let e1 := e.reset
       let e2 := { e1 with cfg := { e1.cfg with thr := fadd e1.cfg.thr extra } }
-      match refitGroups mk e2 groups with
+      match refitGroups pol e2 groups with
       | (e3, some x) => (e3, some x)
-      | (e3, none) => reclusterLoop mk extra stopEarly k perms.tail singles e3
+      | (e3, none) => reclusterLoop pol extra stopEarly k perms.tail singles e3
 
 /-- `recluster_inplace(iterations, extra_threshold, shuffle, seed, stop_early)`; the
 shuffles are supplied as explicit permutations, one per iteration (`none` = no shuffle) -/
-def recluster (mk : Est → Policy) (e : Est) (iters : Nat) (extra : Rat)
+def recluster (pol : Cfg → Policy) (e : Est) (iters : Nat) (extra : Rat)
     (perms : List (Option (List Nat))) (stopEarly : Bool) : Est × Option Err :=
   if !e.st.isInit then (e, some .value)
-  else reclusterLoop mk extra stopEarly iters perms 0 e
+  else reclusterLoop pol extra stopEarly iters perms 0 e
 
 /-- the singleton units of an exploded cluster, read from the original data -/
 def explode (data : List Row) (initialMol : Nat) (ids : List Nat) : Option (List Clu) :=
@@ -243,7 +246,7 @@ def addToU8 (groups : List (W × List Clu)) (us : List Clu) : List (W × List Cl
   else groups ++ [(W.u8, us)]
 
 /-- `refine_inplace(X, initial_mol, n_largest)` -/
-def refine (mk : Est → Policy) (e : Est) (nLargest : Int) (data : List Row) (initialMol : Nat) : Est × Option Err :=
+def refine (pol : Cfg → Policy) (e : Est) (nLargest : Int) (data : List Row) (initialMol : Nat) : Est × Option Err :=
   if !e.st.isInit then (e, some .value)
   else
     match delInternal e with
@@ -256,14 +259,14 @@ def refine (mk : Est → Policy) (e : Est) (nLargest : Int) (data : List Row) (i
         let largest := bfs.take k
         let rest := bfs.drop k
         let groups0 := groupByW rest
-        if k = 0 then refitGroups mk e0.reset groups0
+        if k = 0 then refitGroups pol e0.reset groups0
         else
           match largest.mapM (fun c => explode data initialMol c.ids) with
           | none => (e0, some .index)
           | some us =>
             -- `dtypes_to_fp["uint8"]` is only created when a singleton is appended
             let groups := if us.flatten.isEmpty then groups0 else addToU8 groups0 us.flatten
-            refitGroups mk e0.reset groups
+            refitGroups pol e0.reset groups
 
 /-- argument of `set_merge`: a criterion name or a merge-function object -/
 inductive CritArg
@@ -326,10 +329,10 @@ inductive Op
   | reset
 
 /-- one operation under an arbitrary family of policies (one per configuration) -/
-def stepWith (mk : Est → Policy) (e : Est) : Op → Est × Option Err
-  | .fit rows labels => fit (mk e) e rows labels
-  | .refine n data im => refine mk e n data im
-  | .recluster it ex perms se => recluster mk e it ex perms se
+def stepWith (pol : Cfg → Policy) (e : Est) : Op → Est × Option Err
+  | .fit rows labels => fit (pol e.cfg) e rows labels
+  | .refine n data im => refine pol e n data im
+  | .recluster it ex perms se => recluster pol e it ex perms se
   | .setMerge c t th b => setMerge e c t th b
   | .setThr t => ({ e with cfg := { e.cfg with thr := t } }, none)
   | .setBf b => ({ e with cfg := { e.cfg with bf := b } }, none)
@@ -337,10 +340,10 @@ def stepWith (mk : Est → Policy) (e : Est) : Op → Est × Option Err
   | .reset => (e.reset, none)
 
 /-- the code's own decisions -/
-def step (X : ExpTab) : Est → Op → Est × Option Err := stepWith (fun e => refPolicy X e.cfg)
+def step (X : ExpTab) : Est → Op → Est × Option Err := stepWith (refPolicy X)
 
-def runWith (mk : Est → Policy) (e : Est) (ops : List Op) : Est := ops.foldl (fun e op => (stepWith mk e op).1) e
+def runWith (pol : Cfg → Policy) (e : Est) (ops : List Op) : Est := ops.foldl (fun e op => (stepWith pol e op).1) e
 
-def run (X : ExpTab) (e : Est) (ops : List Op) : Est := runWith (fun e => refPolicy X e.cfg) e ops
+def run (X : ExpTab) (e : Est) (ops : List Op) : Est := runWith (refPolicy X) e ops
 
 end BB
